@@ -23,7 +23,7 @@ TECHNIQUE = 'exhaustive microsecond sweep + exact-rational oracle on adversarial
 RULE = ('(a) all 10^6 microseconds x seconds values; (d) boundary-adjacent fractions; non-trivial = value whose sub-second part is non-zero; '
         'distinct = (part, seconds value, block) / (resolution, fraction class)')
 ASSUMPTIONS = ['datetime64 conversions are specified to truncate (within one unit), not to round']
-REQUIRED = ['raw_rewritten', 'derived_array_conversions', 'time_track_exact_points', 'raw_scalar_paths', 'roundtrip_scalar', 'roundtrip_array', 'writer_roundtrip_values', 'raw_pairs_bit_exact', 'conversions_checked', 'monotone_pairs',
+REQUIRED = ['writer_roundtrip_other_units', 'raw_rewritten', 'derived_array_conversions', 'time_track_exact_points', 'raw_scalar_paths', 'roundtrip_scalar', 'roundtrip_array', 'writer_roundtrip_values', 'raw_pairs_bit_exact', 'conversions_checked', 'monotone_pairs',
             'scalar_vs_array', 'time_tracks', 'defragment_raw']
 EXHAUSTIVE = {'quick': False, 'thorough': False}
 SECONDS = {
@@ -103,9 +103,18 @@ def writer_rt(case, ctx):
     vals = (np.datetime64(secs, 's').astype('M8[us]') + us.astype('m8[us]'))
     props = {'t%d' % i: vals[i] for i in range(0, 60)}
     props['py'] = vals[7].astype(object)
+    # the same kind of instants held in datetime64 arrays of other units (what pandas / np.datetime64('now') users pass)
+    units = {'ms': vals[:500].astype('M8[ms]'), 's': vals[:500].astype('M8[s]')}
+    if abs(secs) < 9 * 10 ** 9:
+        units['ns'] = vals[:500].astype('M8[ns]')
+    if abs(secs) < 10 ** 11:
+        units['D'] = vals[:500].astype('M8[D]')
+    for u_, arr in units.items():
+        props['unit_' + u_] = arr[5]
     buf = io.BytesIO()
     with TdmsWriter(buf) as w:
-        w.write_segment([RootObject(props), ChannelObject('g', 'ts', vals), ChannelObject('g', 'tl', list(vals[:50].astype(object)))])
+        w.write_segment([RootObject(props), ChannelObject('g', 'ts', vals), ChannelObject('g', 'tl', list(vals[:50].astype(object)))]
+                        + [ChannelObject('u', u_, arr) for u_, arr in units.items()])
     ctx.evaluation()
     for mode in ('eager', 'lazy'):
         tf = (TdmsFile.read if mode == 'eager' else TdmsFile.open)(io.BytesIO(buf.getvalue()))
@@ -117,6 +126,11 @@ def writer_rt(case, ctx):
                                                             'read': str(got[bad[0]]) if len(bad) else None, 'dtype': str(got.dtype)})
         if (tf['g']['tl'][:] != vals[:50]).any():
             ctx.violation('writer-roundtrip/datetime-list', {'mode': mode})
+        for u_, arr in units.items():
+            gotu = tf['u'][u_][:]
+            ctx.count('writer_roundtrip_other_units', len(arr))
+            if gotu.dtype != np.dtype('M8[us]') or (gotu != arr.astype('M8[us]')).any():
+                ctx.violation('writer-roundtrip/datetime64-unit/%s' % u_, {'mode': mode, 'written': str(arr[0]), 'read': str(gotu[0])})
         for k, v in props.items():
             want = np.datetime64(v, 'us')
             if tf.properties[k] != want:
@@ -135,10 +149,16 @@ def raw_rt(case, ctx):
     prop = M.rand_ts(rng, datetime_safe=False)
     ctx.evaluation()
     for e in '<>':
-        segs = M.build_file(rng, [('g', 'ts', 'ts', n, [('stamp', 'ts', prop)])], nseg=2, nchunks=(1, 2), endian=e,
-                            values_fn=lambda p, t, k: pairs)
+        # every chunk holds different values (a chunk that aliases a later one must show)
+        blocks = [pairs, pairs[::-1], [(s_ ^ 1, f_ ^ 1) for s_, f_ in pairs]] if case['s'] % 2 else [pairs] * 3
+        served = []
+
+        def vf(p, t, k):
+            served.append(blocks[len(served) % 3])
+            return served[-1]
+        segs = M.build_file(rng, [('g', 'ts', 'ts', n, [('stamp', 'ts', prop)])], nseg=2, nchunks=(1, 2), endian=e, values_fn=vf)
         blob = M.encode_file(segs)[0]
-        want = pairs * 3
+        want = [x for b in served for x in b]
         for mode in ('eager', 'lazy'):
             tf = (TdmsFile.read if mode == 'eager' else TdmsFile.open)(io.BytesIO(blob), raw_timestamps=True)
             got = tf['g']['ts'][:]
